@@ -1130,3 +1130,124 @@ def mapinv(eng, o):
         z3.ForAll([l], z3.Implies(z3.Select(mp.dom, l), z3.And(ml >= 0, ml < nx, z3.Select(rm.dom, ml), z3.Select(rm.val, ml) == l))),
         z3.ForAll([j], z3.Implies(z3.Select(rm.dom, j), z3.And(j >= 0, j < nx, z3.Select(mp.dom, rj), z3.Select(mp.val, rj) == j))),
         z3.ForAll([j], z3.Implies(z3.And(j >= 0, j < nx), z3.Select(rm.dom, j))), nx >= 0), "bool")
+
+
+# ------------------------------------------------------------------ degree reduction (C01)
+@spec
+def rlinked(eng, m):
+    """the second ghost assignment (on the model's own labels) is the first one (on the integer labels) composed with
+    the mapping: a(l) == x(m[l]) on dom(m)"""
+    ver = eng.store_of(m)
+    if getattr(eng.facts, "a_role", None) == "origin":
+        raise Unsupported("second ghost assignment used both for relabelling and as the origin")
+    eng.facts.a_role = "relabel"
+    eng.facts.enable_ghost("a")
+    return SV(T.rlinked(ver.dom, ver.val), "bool")
+
+
+@spec
+def inkey(eng, i, k):
+    """the label occurs in the key"""
+    eng.facts.enable_sets()
+    ke = eng.as_key(k)
+    eng.facts.key(ke)
+    return SV(z3.Select(eng.facts.memset_of(ke), eng.as_label(i)), "bool")
+
+
+@spec
+def without(eng, k, x, y):
+    """the key without the labels x and y (all their occurrences), with: mono(k) == mono(without) * mono(removed part),
+    and - lemma L17, boolean idempotence - the removed part's monomial is x's value if x occurs, times y's if y occurs"""
+    eng.facts.enable_sets()
+    ke = eng.as_key(k)
+    xe, ye = eng.as_label(x), eng.as_label(y)
+    S = z3.Store(z3.Store(z3.K(T.Label, z3.BoolVal(False)), xe, z3.BoolVal(True)), ye, z3.BoolVal(True))
+    fo, fi = eng.facts.split(ke, S)
+    ms = eng.facts.memset_of(ke)
+    one = z3.RealVal(1)
+    for g in eng.facts.ghosts:
+        val, _, bmf, _, _ = T.GHOSTS[g]
+        both = z3.If(z3.Select(ms, xe), val(xe), one) * z3.If(z3.And(z3.Select(ms, ye), ye != xe), val(ye), one)
+        eng.facts.add(bmf(fi) == both)
+    eng.facts.used.add("L17-removed-pair")
+    return SV(fo, "key")
+
+
+CONS = z3.Function("consistent_with", z3.ArraySort(T.Key, T.Bool), z3.ArraySort(T.Key, T.Int), T.Bool)
+
+
+@spec
+def cons(eng, R):
+    """the ghost assignment is consistent with the reductions recorded in the table R: x[z] == x[p0] * x[p1] for every
+    (p0, p1) -> z of R.  The predicate only ever occurs as a hypothesis, so it is an uninterpreted predicate of the
+    table's contents together with those of its consequences the proofs use, stated explicitly (no quantifier):
+    for a table obtained by writing p -> z into R0: consistency with it gives x[z] == x[p0]*x[p1] and, when p was not
+    in R0, consistency with R0; for any table: the equation at every pair the path looked up in a table of reductions."""
+    ver = eng.store_of(R)
+    if ver.kind == "empty" and ver.vsort != T.Int:
+        return True
+    if ver.ksort != T.Key or ver.vsort != T.Int:
+        raise Unsupported("table of reductions expected (pair -> integer label)")
+    return SV(_cons_of(eng, ver), "bool")
+
+
+def _cons_of(eng, ver):
+    if "cons" in ver.cache:
+        return ver.cache["cons"]
+    c = CONS(ver.dom, ver.val)
+    ver.cache["cons"] = c
+    if ver.kind == "empty":
+        eng.facts.add(c)
+    elif ver.kind == "set":
+        k, z, par = ver.k, ver.c, ver.parent
+        cp = _cons_of(eng, par)
+        eng.facts.key(k)
+        eng.facts.add(z3.Implies(z3.And(c, z3.Length(k) == 2), T.xval(z) == T.xval(k[0]) * T.xval(k[1])))
+        eng.facts.add(z3.Implies(z3.And(c, z3.Not(z3.Select(par.dom, k))), cp))
+    reg = getattr(eng, "cons_reg", None)
+    if reg is None:
+        reg = eng.cons_reg = {"vers": [], "keys": []}
+    reg["vers"].append((ver, c))
+    for k in reg["keys"]:
+        _cons_inst(eng, ver, c, k)
+    return c
+
+
+def _cons_inst(eng, ver, c, k):
+    z = z3.Select(ver.val, k)
+    eng.facts.add(z3.Implies(z3.And(c, z3.Select(ver.dom, k), z3.Length(k) == 2),
+                             T.xval(z) == T.xval(k[0]) * T.xval(k[1])))
+
+
+def cons_note_key(eng, k):
+    """a pair the path looked up in a table of reductions: instantiate the consistency equation there"""
+    reg = getattr(eng, "cons_reg", None)
+    if reg is None:
+        reg = eng.cons_reg = {"vers": [], "keys": []}
+    if any(k.eq(x) for x in reg["keys"]):
+        return
+    reg["keys"].append(k)
+    eng.facts.key(k)
+    for ver, c in reg["vers"]:
+        _cons_inst(eng, ver, c, k)
+
+
+@spec
+def final(eng, name):
+    """the value of a local variable of the function under verification at its return point (ghost access, only in
+    the post-conditions of that function - not available at call sites)"""
+    loc = getattr(eng, "_final_locals", None)
+    if loc is None or name not in loc:
+        raise Unsupported("final(%r): no such local at the return point" % (name,))
+    return loc[name]
+
+
+@spec
+def vals_in(eng, table, lo, hi):
+    """every value of the table (key -> integer label) lies in [lo, hi)"""
+    ver = eng.store_of(table)
+    if ver.kind == "empty":
+        return True
+    if ver.vsort != T.Int:
+        raise Unsupported("table key -> integer expected")
+    return SV(FO.valsin_of(eng, ver, zint(lo), zint(hi)), "bool")
